@@ -25,6 +25,7 @@ import (
 
 	"verifharness/fakekafka"
 	"verifharness/fakenet"
+	"verifharness/kwire"
 )
 
 var leaderCounter int64
@@ -38,9 +39,9 @@ func balancerFor(name, rack string) (kafka.GroupBalancer, error) {
 
 // ExecuteLeader plays one input through the leader path and returns one line.  Err is set when the
 // group did not form (a member's Next failed or timed out): such a line is not judged.
-func ExecuteLeader(in Input) (Line, error) {
+func ExecuteLeader(in Input) ([]Line, []map[string]interface{}, error) {
 	nonNil(&in)
-	l := Line{N: in.N, Bal: in.Balancer, Out: []Entry{}, Reps: 1, Path: "leader", Leader: in.Leader}
+	l := Line{N: in.N, Bal: in.Balancer, Out: []Entry{}, Reps: 1, Path: "leader", Leader: in.Leader, Phase: 1}
 	l.Sorted = Run{Members: []Member{}, Out: []Entry{}}
 	l.In.Members = in.Members
 
@@ -82,7 +83,7 @@ func ExecuteLeader(in Input) (Line, error) {
 		sort.Slice(ps, func(i, j int) bool { return ps[i].ID < ps[j].ID })
 		for i, p := range ps {
 			if p.ID != i {
-				return l, fmt.Errorf("leader path needs partitions numbered 0..k-1, topic %s has %d at position %d", t, p.ID, i)
+				return nil, nil, fmt.Errorf("leader path needs partitions numbered 0..k-1, topic %s has %d at position %d", t, p.ID, i)
 			}
 		}
 		tt := cl.AddTopic(t, len(ps))
@@ -98,10 +99,30 @@ func ExecuteLeader(in Input) (Line, error) {
 	}
 	l.In.Parts = truth
 
+	// phase 2 (optional): after generation 1 some members leave and/or others join; the line of generation 2 has the
+	// members of that generation as its input
+	phase2 := len(in.Late) > 0 || len(in.Leave) > 0
+	leaving := map[string]bool{}
+	for _, id := range in.Leave {
+		leaving[id] = true
+	}
+	all := append(append([]Member{}, in.Members...), in.Late...)
 	order := map[string]int{}
-	for i, m := range in.Members {
+	for i, m := range all {
 		order[m.ID] = i
 	}
+	tr := &tracer{}
+	subs := map[string][]string{}
+	var ids []string
+	for _, m := range all {
+		subs[m.ID] = m.Topics
+		ids = append(ids, m.ID)
+	}
+	nparts := map[string]int{}
+	for t, ps := range byTopic {
+		nparts[t] = len(ps)
+	}
+	tr.emit(map[string]interface{}{"ev": "cfg", "n": in.N, "members": ids, "subs": subs, "nparts": nparts, "bal": in.Balancer})
 	cl.GroupOpts = fakekafka.GroupOptions{
 		MinJoin:      len(in.Members),
 		PreferLeader: in.Leader,
@@ -110,6 +131,30 @@ func ExecuteLeader(in Input) (Line, error) {
 			sort.SliceStable(ids, func(i, j int) bool { return order[ids[i]] < order[ids[j]] })
 			return ids
 		},
+		OnRound: func(gen int32, leader string, members []string) {
+			tr.emit(map[string]interface{}{"ev": "round", "gen": int(gen), "leader": leader, "members": append([]string{}, members...)})
+		},
+		OnSync: func(member string, gen int32, asg map[string][]byte, code int16) {
+			tr.emit(map[string]interface{}{"ev": "sync", "m": member, "gen": int(gen), "code": int(code), "asg": decodeAssignments(asg)})
+		},
+	}
+	cl.OnJournal = func(e fakekafka.JournalEntry) {
+		switch e.ApiKey {
+		case fakekafka.JoinGroup:
+			if c, _ := e.Info["code"].(int); c == 0 {
+				tr.emit(map[string]interface{}{"ev": "join", "m": e.Info["member"]})
+			}
+		case fakekafka.Metadata:
+			if ts, ok := e.Info["topics"].([]string); ok && len(ts) > 0 && order[e.Owner] >= 0 && subs[e.Owner] != nil {
+				tr.emit(map[string]interface{}{"ev": "meta", "m": e.Owner, "topics": append([]string{}, ts...)})
+			}
+		case fakekafka.Heartbeat:
+			if c, _ := e.Info["code"].(int); c != 0 {
+				tr.emit(map[string]interface{}{"ev": "hbfail", "m": e.Info["member"], "code": c})
+			}
+		case fakekafka.LeaveGroup:
+			tr.emit(map[string]interface{}{"ev": "leave", "m": e.Info["member"]})
+		}
 	}
 
 	type result struct {
@@ -117,79 +162,239 @@ func ExecuteLeader(in Input) (Line, error) {
 		gen *kafka.Generation
 		err error
 	}
-	var groups []*kafka.ConsumerGroup
-	defer func() {
+	var gmu sync.Mutex
+	groups := map[string]*kafka.ConsumerGroup{}
+	closeAll := func() {
 		var wg sync.WaitGroup
+		gmu.Lock()
 		for _, cg := range groups {
 			wg.Add(1)
 			go func(cg *kafka.ConsumerGroup) { defer wg.Done(); cg.Close() }(cg)
 		}
+		gmu.Unlock()
 		wg.Wait()
-	}()
-	res := make(chan result, len(in.Members))
-	ctx, cancel := context.WithTimeout(context.Background(), 20*time.Second)
+	}
+	res := make(chan result, 4*len(all)+4)
+	ctx, cancel := context.WithTimeout(context.Background(), 30*time.Second)
 	defer cancel()
-	for _, m := range in.Members {
+	hb := time.Second
+	if phase2 {
+		hb = 60 * time.Millisecond
+	}
+	start := func(m Member) error {
 		b, err := balancerFor(in.Balancer, m.Rack)
 		if err != nil {
-			return l, err
+			return err
 		}
 		cg, err := kafka.NewConsumerGroup(kafka.ConsumerGroupConfig{
 			ID: "g", Brokers: []string{"b1:9092"}, Topics: append([]string(nil), m.Topics...),
 			Dialer:         &kafka.Dialer{DialFunc: n.Dialer(m.ID), Timeout: 5 * time.Second, ClientID: m.ID},
-			GroupBalancers: []kafka.GroupBalancer{b}, HeartbeatInterval: time.Second, JoinGroupBackoff: 50 * time.Millisecond,
+			GroupBalancers: []kafka.GroupBalancer{b}, HeartbeatInterval: hb, JoinGroupBackoff: 50 * time.Millisecond,
 			SessionTimeout: 30 * time.Second, RebalanceTimeout: 30 * time.Second, Timeout: 10 * time.Second, StartOffset: kafka.FirstOffset,
 		})
 		if err != nil {
-			return l, err
+			return err
 		}
-		groups = append(groups, cg)
+		gmu.Lock()
+		groups[m.ID] = cg
+		gmu.Unlock()
 		go func(id string, cg *kafka.ConsumerGroup) {
-			gen, err := cg.Next(ctx)
-			res <- result{id, gen, err}
-		}(m.ID, cg)
-	}
-	for range in.Members {
-		r := <-res
-		if r.err != nil {
-			l.Err = fmt.Sprintf("member %s: Next: %v", r.id, r.err)
-			continue
-		}
-		if r.gen.MemberID != r.id {
-			l.Err = fmt.Sprintf("member %s was given the id %s", r.id, r.gen.MemberID)
-		}
-		for t, as := range r.gen.Assignments {
-			e := Entry{M: r.id, T: t, Ps: []int{}}
-			for _, a := range as {
-				e.Ps = append(e.Ps, a.ID)
+			for {
+				gen, err := cg.Next(ctx)
+				if err == nil {
+					tr.emit(map[string]interface{}{"ev": "got", "m": id, "gen": int(gen.ID), "asg": flatten(id, gen.Assignments, false)})
+				}
+				res <- result{id, gen, err}
+				if err != nil {
+					return
+				}
 			}
-			l.Out = append(l.Out, e)
+		}(m.ID, cg)
+		return nil
+	}
+	collect := func(l *Line, members []Member, wantGen int32) {
+		want := map[string]bool{}
+		for _, m := range members {
+			want[m.ID] = true
+		}
+		for len(want) > 0 {
+			r := <-res
+			if r.err != nil {
+				if leaving[r.id] && !want[r.id] {
+					continue // the second Next of a member that was closed
+				}
+				l.Err = fmt.Sprintf("member %s: Next: %v", r.id, r.err)
+				delete(want, r.id)
+				continue
+			}
+			if r.gen.ID != wantGen || !want[r.id] {
+				continue
+			}
+			delete(want, r.id)
+			if r.gen.MemberID != r.id {
+				l.Err = fmt.Sprintf("member %s was given the id %s", r.id, r.gen.MemberID)
+			}
+			for _, e := range flatten(r.id, r.gen.Assignments, true) {
+				l.Out = append(l.Out, e)
+			}
+		}
+		sort.Slice(l.Out, func(i, j int) bool {
+			if l.Out[i].M != l.Out[j].M {
+				return l.Out[i].M < l.Out[j].M
+			}
+			return l.Out[i].T < l.Out[j].T
+		})
+		if st := cl.GroupState("g"); st != nil {
+			cl.Lock()
+			l.Elected, l.Generation = st.Leader, int(st.Generation)
+			cl.Unlock()
+		}
+		// which topics the leader asked the broker for (recorded, not judged)
+		l.Asked = []string{}
+		for _, e := range cl.Journal() {
+			if e.ApiKey == fakekafka.Metadata && e.Owner == l.Elected {
+				if ts, ok := e.Info["topics"].([]string); ok && len(ts) >= len(l.Asked) {
+					l.Asked = ts
+				}
+			}
 		}
 	}
-	if st := cl.GroupState("g"); st != nil {
-		cl.Lock()
-		l.Elected, l.Generation = st.Leader, int(st.Generation)
-		cl.Unlock()
+
+	defer closeAll()
+	for _, m := range in.Members {
+		if err := start(m); err != nil {
+			return nil, nil, err
+		}
 	}
+	collect(&l, in.Members, 1)
 	if l.Err == "" && (l.Elected != in.Leader || l.Generation != 1) {
 		l.Err = fmt.Sprintf("the group formed with leader %s in generation %d, wanted %s in generation 1", l.Elected, l.Generation, in.Leader)
 	}
-	sort.Slice(l.Out, func(i, j int) bool {
-		if l.Out[i].M != l.Out[j].M {
-			return l.Out[i].M < l.Out[j].M
+	lines := []Line{l}
+	if phase2 && l.Err == "" {
+		l2 := Line{N: in.N, Bal: in.Balancer, Out: []Entry{}, Reps: 1, Path: "leader", Leader: in.Leader2, Phase: 2}
+		l2.Sorted = Run{Members: []Member{}, Out: []Entry{}}
+		l2.In.Parts = truth
+		var stay []Member
+		for _, m := range all {
+			if !leaving[m.ID] {
+				stay = append(stay, m)
+			}
 		}
-		return l.Out[i].T < l.Out[j].T
-	})
-	// which topics the leader asked the broker for (recorded, not judged)
-	for _, e := range cl.Journal() {
-		if e.ApiKey == fakekafka.Metadata && e.Owner == in.Leader {
-			if ts, ok := e.Info["topics"].([]string); ok && len(ts) > 0 {
-				l.Asked = ts
+		l2.In.Members = stay
+		if in.Leader2 != "" {
+			cl.Lock()
+			cl.GroupOpts.PreferLeader = in.Leader2
+			cl.Unlock()
+		}
+		for _, id := range in.Leave {
+			gmu.Lock()
+			cg := groups[id]
+			delete(groups, id)
+			gmu.Unlock()
+			cg.Close()
+		}
+		for _, m := range in.Late {
+			if err := start(m); err != nil {
+				return nil, nil, err
+			}
+		}
+		collect(&l2, stay, 2)
+		if l2.Err == "" && l2.Generation != 2 {
+			l2.Err = fmt.Sprintf("phase 2 ended in generation %d, wanted 2", l2.Generation)
+		}
+		if l2.Leader == "" {
+			l2.Leader = l2.Elected
+		}
+		lines = append(lines, l2)
+	}
+	events := tr.stop()
+	return lines, events, nil
+}
+
+// tracer is the one recorder of a run: coordinator-side events arrive under the cluster's lock, member-side ones from
+// the members' goroutines
+type tracer struct {
+	mu      sync.Mutex
+	events  []map[string]interface{}
+	pending map[string]interface{} // a completed round, held back until the JoinGroup request that completed it is logged
+	stopped bool
+}
+
+// The fake coordinator completes a round inside the handler of the last JoinGroup request, before that request is
+// journaled (one critical section): the round is logged after the request.
+func (t *tracer) emit(e map[string]interface{}) {
+	t.mu.Lock()
+	defer t.mu.Unlock()
+	if t.stopped {
+		return
+	}
+	switch {
+	case e["ev"] == "round":
+		t.pending = e
+		return
+	case e["ev"] == "join":
+		t.events = append(t.events, e)
+		if t.pending != nil {
+			t.events = append(t.events, t.pending)
+			t.pending = nil
+		}
+		return
+	case t.pending != nil:
+		t.events = append(t.events, t.pending)
+		t.pending = nil
+	}
+	t.events = append(t.events, e)
+}
+
+func (t *tracer) stop() []map[string]interface{} {
+	t.mu.Lock()
+	defer t.mu.Unlock()
+	t.stopped = true
+	return t.events
+}
+
+func flatten(id string, as map[string][]kafka.PartitionAssignment, keepEmpty bool) []Entry {
+	out := []Entry{}
+	for t, ps := range as {
+		e := Entry{M: id, T: t, Ps: []int{}}
+		for _, a := range ps {
+			e.Ps = append(e.Ps, a.ID)
+		}
+		if len(e.Ps) > 0 || keepEmpty {
+			out = append(out, e)
+		}
+	}
+	sort.Slice(out, func(i, j int) bool { return out[i].T < out[j].T })
+	return out
+}
+
+// decodeAssignments reads the consumer-protocol assignments of a SyncGroup request (version, [topic, [partition]], user data)
+func decodeAssignments(asg map[string][]byte) []Entry {
+	out := []Entry{}
+	for m, b := range asg {
+		r := kwire.R{B: b}
+		if len(b) == 0 {
+			continue
+		}
+		r.I16()
+		n := r.ArrayLen()
+		for i := 0; i < n; i++ {
+			e := Entry{M: m, T: r.Str(), Ps: []int{}}
+			k := r.ArrayLen()
+			for j := 0; j < k; j++ {
+				e.Ps = append(e.Ps, int(r.I32()))
+			}
+			if len(e.Ps) > 0 {
+				out = append(out, e)
 			}
 		}
 	}
-	if l.Asked == nil {
-		l.Asked = []string{}
-	}
-	return l, nil
+	sort.Slice(out, func(i, j int) bool {
+		if out[i].M != out[j].M {
+			return out[i].M < out[j].M
+		}
+		return out[i].T < out[j].T
+	})
+	return out
 }
